@@ -17,6 +17,7 @@ func init() {
 			k.PFaultKind = 25
 			k.PCallback = 12 // a callback must not change what a failure does
 			k.PErr2 = 8      // two error results, both non-nil on failure
+			k.PErrPtr = 4    // error result of a concrete type
 			k.PSide = 8
 			k.PRecover = 65
 			k.WInvoke = 11
@@ -43,6 +44,7 @@ func init() {
 			k.PFaultKind = 45
 			k.PCallback = 15 // a callback must not change how a panic / error surfaces
 			k.PErr2 = 8      // two error results: the root cause is one of the function's own errors
+			k.PErrPtr = 4    // error result of a concrete type
 			k.PRecover = 50
 			k.PHole = 60
 			k.PAvail = 90
@@ -78,7 +80,8 @@ func init() {
 			bk.PLocPC = 12
 			bk.PRepeat = 25 // the same function registered again (other scope / rejected duplicate)
 			bk.PSysClock = 10
-			bk.PErr2 = 8 // functions with two error results: the callback's Error must lead to one of them
+			bk.PErrPtr = 5 // error results of a concrete type: the callback must see the failure
+			bk.PErr2 = 8   // functions with two error results: the callback's Error must lead to one of them
 			bk.WInvoke, bk.WDecorate = 8, 3
 			bk.PDeep, bk.PChain = 70, 50
 			bk.MaxOps = 20
